@@ -199,5 +199,43 @@ def loops_to_comps(tree):
     return total
 
 
+class _Spellings(ast.NodeTransformer):
+    """one spelling for a few library idioms:
+         range(0, n) / range(a, b, 1)      ->  range(n) / range(a, b)
+         x.fill(v)   (statement, x a name) ->  x[...] = v            (ndarray.fill; lists have no fill)
+    """
+    def __init__(self):
+        self.n = 0
+
+    def visit_Call(self, n):
+        self.generic_visit(n)
+        if isinstance(n.func, ast.Name) and n.func.id == 'range' and not n.keywords:
+            a = list(n.args)
+            if len(a) == 3 and isinstance(a[2], ast.Constant) and a[2].value == 1:
+                a = a[:2]
+            if len(a) == 2 and isinstance(a[0], ast.Constant) and a[0].value == 0 and not isinstance(a[0].value, bool):
+                a = a[1:]
+            if len(a) != len(n.args):
+                n.args = a
+                self.n += 1
+        return n
+
+    def visit_Expr(self, n):
+        self.generic_visit(n)
+        c = n.value
+        if isinstance(c, ast.Call) and isinstance(c.func, ast.Attribute) and c.func.attr == 'fill' and \
+                isinstance(c.func.value, ast.Name) and len(c.args) == 1 and not c.keywords:
+            new = ast.Assign(targets=[ast.Subscript(value=ast.Name(id=c.func.value.id, ctx=ast.Load()),
+                                                    slice=ast.Constant(value=Ellipsis), ctx=ast.Store())],
+                             value=c.args[0], type_comment=None)
+            ast.copy_location(new, n)
+            ast.fix_missing_locations(new)
+            self.n += 1
+            return new
+        return n
+
+
 def normalise(tree):
-    return loops_to_comps(tree)
+    sp = _Spellings()
+    sp.visit(tree)
+    return loops_to_comps(tree) + sp.n
